@@ -128,10 +128,17 @@ def pb_bytes(x):
     return x.SerializeToString()
 
 
-def walk_types(module_name, errors):
-    """message / enum classes defined in the `types` modules, by qualified class name."""
+def walk_types(w, module_name, errors):
+    """message / enum classes defined in the `types` modules, by qualified class name.  Classes that the INPUT descriptors
+    declare as synthetic map entries (proto-plus materialises `XEntry` classes for map fields) are not types of the API."""
     import proto
     found = {}
+
+    def is_map_entry(qualname):
+        try:
+            return bool(w.pool.pool.FindMessageTypeByName(w.full(qualname)).GetOptions().map_entry)
+        except KeyError:
+            return False
     try:
         tpkg = importlib.import_module(module_name + '.types')
     except Exception as e:
@@ -146,6 +153,8 @@ def walk_types(module_name, errors):
 
     def visit(cls, modname):
         kind = 'enum' if issubclass(cls, proto.Enum) else 'message'
+        if kind == 'message' and is_map_entry(cls.__qualname__):
+            return
         found.setdefault(cls.__qualname__, (kind, cls))
         for v in list(vars(cls).values()):
             if inspect.isclass(v) and issubclass(v, (proto.Message, proto.Enum)) and v.__module__ == modname \
@@ -263,7 +272,7 @@ def main():
         rt.emit(out)
         return
     out['exports'] = sorted(n for n in dir(mod) if n.endswith('Client') and inspect.isclass(getattr(mod, n)))
-    types = walk_types(module, out['import_errors'])
+    types = walk_types(w, module, out['import_errors'])
     out['types'] = sorted(([n, k] for n, (k, _) in types.items()))
     for n, (k, cls) in sorted(types.items()):
         bad = check_class(w, n, k, cls)
